@@ -17,6 +17,7 @@ func combineContext(c *Ctx) {
 	}
 	P := c.P
 	fn := q.fn
+	var deregFn *ssa.Function // the de-registration hook when it is a closure of CombineContext rather than stops.Stop
 	primary, others := fn.Params[0], fn.Params[1]
 	wcs := P.CallsTo(fn, "context.WithCancel")
 	if len(wcs) != 2 {
@@ -127,7 +128,20 @@ func combineContext(c *Ctx) {
 					return false
 				}
 				mc, ok := cc.Args[1].(*ssa.MakeClosure)
-				return ok && strings.Contains(an.FuncName(mc.Fn.(*ssa.Function)), "stopCallbackSlice).Stop")
+				if !ok {
+					return false
+				}
+				// the hook is stops.Stop, or a closure of this function that does the same: either way a function that
+				// calls every collected stop function (judged below on whatever function it is)
+				hf := mc.Fn.(*ssa.Function)
+				if strings.Contains(an.FuncName(hf), "stopCallbackSlice).Stop") {
+					return true
+				}
+				if hf.Parent() == fn && stopsEveryHook(P, hf) {
+					deregFn = hf
+					return true
+				}
+				return false
 			})
 			ok := len(dereg) == 1 && P.Before(fn, an.Is(dereg[0]), r)
 			q.add("REL", "the hooks are deregistered when the result is cancelled", ok, pickS(ok, "AfterFunc(result, stops.Stop) dominates the return", "the hooks registered on the other contexts are never deregistered: each call leaks one registration per other context until those contexts end"), r)
@@ -301,18 +315,26 @@ func combineContext(c *Ctx) {
 				pickS(ok, "the pre-check loop is left towards the wiring code only through its header (all others inspected)", "the pre-check loop can be left early (e.g. a break after the first non-nil other): an already-cancelled other further down the list would not make the result already cancelled"), errs[0])
 		}
 	}
-	if stop := c.F("(stopCallbackSlice).Stop"); stop.ok() {
-		calls := an.AllInstrs(stop.fn, func(in ssa.Instruction) bool {
-			call, ok := in.(*ssa.Call)
-			if !ok || call.Call.IsInvoke() || call.Call.StaticCallee() != nil {
-				return false
-			}
-			_, isB := call.Call.Value.(*ssa.Builtin)
-			return !isB
-		})
-		ok := len(calls) == 1 && P.InCycle(calls[0])
-		stop.add("REL", "Stop stops every collected hook", ok, "calls each element in a loop", calls...)
+	if deregFn != nil {
+		// the de-registration is a closure of CombineContext (judged where it was found)
+		(&fq{c: c, fn: deregFn, name: an.FuncName(deregFn)}).add("REL", "Stop stops every collected hook", true, "calls each element in a loop")
+	} else if stop := c.F("(stopCallbackSlice).Stop"); stop.ok() {
+		ok := stopsEveryHook(P, stop.fn)
+		stop.add("REL", "Stop stops every collected hook", ok, "calls each element in a loop")
 	}
+}
+
+// stopsEveryHook: the function's only dynamic call is made in a loop (over the collected stop functions).
+func stopsEveryHook(P *an.Prog, f *ssa.Function) bool {
+	calls := an.AllInstrs(f, func(in ssa.Instruction) bool {
+		call, ok := in.(*ssa.Call)
+		if !ok || call.Call.IsInvoke() || call.Call.StaticCallee() != nil {
+			return false
+		}
+		_, isB := call.Call.Value.(*ssa.Builtin)
+		return !isB
+	})
+	return len(calls) == 1 && P.InCycle(calls[0])
 }
 
 func bodyBlockOf(v ssa.Value) *ssa.BasicBlock {
